@@ -83,6 +83,8 @@ def hook_coq(h):
 
 def op_line(o):
     k = o[0]
+    if k == "block":             # the chain advances by o[1] blocks (no contract is called; a refused call to the model)
+        return "block %d" % o[1]
     if k == "bank":
         return "bank %d %d %s" % (o[1], o[2], coins_line(o[3]))
     if k == "transfer":
@@ -135,6 +137,8 @@ def op_line(o):
 def op_coq(o):
     k = o[0]
     n = lambda *xs: " ".join(cq(x) for x in xs)
+    if k == "block":
+        return op_coq(("router_assert_min", USER0, ("n", 0), 0, 0, USER0))
     if k == "bank":
         return "(OBankSend %s %s)" % (n(o[1], o[2]), coins_coq(o[3]))
     if k == "transfer":
@@ -529,6 +533,8 @@ class _Cur:
 def parse_op_line(line):
     c = _Cur(line.split())
     k = c.nx()
+    if k == "block":
+        return (k, c.num())
     if k == "bank":
         return (k, c.num(), c.num(), c.coins())
     if k in ("transfer", "incr_allow", "mint"):
@@ -896,7 +902,9 @@ def general_histories(rng, tier, n_hist=None, steps=None):
                     h.do(("swap", q_, u_, [(off[1], amt - 1)], off, amt, None, None, None), quote)
                 else:
                     h.do(("send", off[1], u_, q_, amt, ("hswap", off, amt // 2, None, None, None)), quote)
-        for _ in range(steps):
+        for step_k in range(steps):
+            if step_k % 5 == 2:
+                h.do(("block", 1 + step_k % 3))       # blocks of a few operations each (time passes between some, not all)
             u = rng.choice(h.users())
             pairs = h.pairs()
             r = rng.random()
@@ -1180,8 +1188,10 @@ def funds_matrix(rng, tier):
     v = 1000
     for rep in range({"quick": 1, "thorough": 3}[tier]):
         h = Hist(3, 3, 1, 3, 10 ** 12, 1000, [6], "directed-matrix", "C09 declared x attached matrix")
-        created = setup_pairs(h, rng, [(("n", 0), ("n", 1)), (("n", 0), ("t", 2))], comm=3 * 10 ** 15, scale=10 ** 7, even=(rep == 0))
-        nn, ntp = created[0], created[1]
+        # (a third pair whose FIRST asset is the cw20 and whose second is a native coin: a pair keeps the order CreatePair was
+        # given - C09-agent17: the funds check skipped on pairs that "start with a cw20")
+        created = setup_pairs(h, rng, [(("n", 0), ("n", 1)), (("n", 0), ("t", 2)), (("t", 2), ("n", 1))], comm=3 * 10 ** 15, scale=10 ** 7, even=(rep == 0))
+        nn, ntp, tnp = created[0], created[1], created[2]
         u = USER0 + 1
         attach = lambda d, decl: [None, 0, decl - 1, decl, decl + 1]
         # the declared amount attached in the WRONG denom (the pair's other asset / an unrelated coin), alone and next to other coins
@@ -1201,6 +1211,11 @@ def funds_matrix(rng, tier):
                     h.do(("swap", ntp, u, f, ("n", 0), decl, None, None, None))
                     h.do(("provide", ntp, u, f, ("n", 0), decl, ("t", 2), 4 * decl, None, None))
                     h.do(("pair_receive", ntp, u, f, u, decl, ("hswap", ("n", 0), decl, None, None, None)))
+                    if att is not None or not extra:
+                        f1 = [(1, n_) if d_ == 0 else (d_, n_) for d_, n_ in f]          # the same shapes on denom 1
+                        h.do(("provide", tnp, u, f1, ("t", 2), 4 * decl, ("n", 1), decl, None, None))
+                        h.do(("provide", tnp, u, f1, ("n", 1), decl, ("t", 2), 4 * decl, None, None))
+                        h.do(("swap", tnp, u, f1, ("n", 1), decl, None, None, None))
                     for att1 in attach(1, decl):
                         f2 = f + ([] if att1 is None else [(1, att1)])
                         if any(n < 0 for _, n in f2):
@@ -1247,7 +1262,7 @@ def first_provision_matrix(rng, tier):
     cases = []
     kinds = [(("n", 0), ("n", 1)), (("n", 0), ("t", 2)), (("t", 2), ("t", 3)), (("t", 3), ("n", 1))]
     for rep in range({"quick": 1, "thorough": 4}[tier]):
-        h = Hist(4, 2, 2, 4, 10 ** 12, 1000, [6, 18], "directed-matrix", "first provision matrix")
+        h = Hist(4, 2, 2, 5, 10 ** 12, 1000, [6, 18], "directed-matrix", "first provision matrix")
         wl_user, other_wl, outsider, outsider2 = USER0 + 1, USER0, USER0 + 2, USER0 + 3
         # every world has all four settings of the first-provision minimums, one per pair, rotating with the world (they used
         # to be drawn per world: with seed 1 no pair allowed tiny first deposits and C05-agent13 went unseen)
@@ -1260,6 +1275,12 @@ def first_provision_matrix(rng, tier):
             for q_ in new_:
                 mins_of[q_] = mm
             created += new_
+        # a pair created with an EMPTY whitelist: nobody may make its first provision, whatever the deposits (C05-agent17: an
+        # empty list read as "no restriction")
+        for q_ in setup_pairs(h, rng, [(("n", 1), ("t", 2))], whitelist=[], mins=(10, 10), comm=3 * 10 ** 15, provide=False, native_decs=[6, 6]):
+            b0, b1 = h.pair_assets(q_)
+            for c_ in (wl_user, other_wl, outsider):
+                h.do(("provide", q_, c_, funds_for([(b0, 4000), (b1, 1000)]), b0, 4000, b1, 1000, None, None))
         for i, p in enumerate(created):
             a0, a1 = h.pair_assets(p)
             m0, m1 = mins_of[p]
@@ -1560,6 +1581,18 @@ def lp_handover_histories(rng, tier):
                 if r0 > 10 and r1 > 10:
                     h.do(("provide", p, USER0 + 1, funds_for([(a0, r0 // 9), (a1, r1 // 9)]), a0, r0 // 9, a1, r1 // 9, None, lp))
             h.do(gen_swap(h, rng, p, USER0 + 1, limits=False))
+            # time passes; then, WITHIN one block, another actor's large swap (more than doubling the price) is followed by a
+            # holder's withdrawal (C20-agent17: withdrawals refused when the price moved within the block)
+            h.do(("block", 3))
+            r0, r1 = h.reserves(p)
+            if r0 > 0 and h.abal(a0, USER0 + 1) >= r0:
+                if a0[0] == "n":
+                    h.do(("swap", p, USER0 + 1, [(a0[1], r0)], a0, r0, None, None, None))
+                else:
+                    h.do(("send", a0[1], USER0 + 1, p, r0, ("hswap", a0, r0, None, None, None)))
+                if h.bal(lp, USER0) > 10:
+                    h.do(("send", lp, USER0, p, h.bal(lp, USER0) // 10, ("hwithdraw",)))
+            h.do(("block", 1))
             if HAVE_ALLOWANCE_OPS and (i + rep) % 2 == 1:
                 # the allowance entry point: a spender holding no LP of its own redeems an owner's LP (SendFrom + hook)
                 ow, sp = USER0, USER0 + 3 if h.bal(lp, USER0 + 3) == 0 else USER0 + 2
@@ -1809,6 +1842,19 @@ def router_histories(rng, tier):
                     kq = hk.query("rsim %d %s" % (amt, ops_line(kops)))
                     hk.do(("router_ops", USER0 + 1, [(kops[0][0][1], amt)], kops, None, kto), kq)
             cases.append(hk.finish())
+            # hops that take out a pool's WHOLE ask reserve (recorded finding KF-ceil-window, drain variant: a shallow pool hit by an
+            # enormous offer pays its entire reserve): the router must still deliver exactly what it quotes, as a last hop and as
+            # the hop that feeds the next one (C13-agent17: the pair paid min(return, reserve - 1), the quote did not)
+            hd = Hist(3, 2, 2, 3, 10 ** 20, 1000, [18, 18], "corpus", "route through a hop that empties a shallow pool")
+            cd_ = setup_pairs(hd, rng, [(("n", 0), ("t", 2)), (("t", 2), ("t", 3)), (("n", 1), ("t", 3))], comm=3 * 10 ** 15, provide=False,
+                              native_decs=[18, 18])
+            for q, dep in zip(cd_, (2, 100, 100)):
+                q0, q1 = hd.pair_assets(q)
+                hd.do(("provide", q, USER0, funds_for([(q0, dep), (q1, dep)]), q0, dep, q1, dep, None, None))
+            for kops, kamt in (([(("n", 0), ("t", 2))], 5 * 10 ** 18), ([(("n", 1), ("t", 3)), (("t", 3), ("t", 2))], 10 ** 20 - 5 * 10 ** 18 - 7)):
+                kq = hd.query("rsim %d %s" % (kamt, ops_line(kops)))
+                hd.do(("router_ops", USER0 + 1, [(kops[0][0][1], kamt)], kops, None, USER0 + 2), kq)
+            cases.append(hd.finish())
         # directed: the recipient is itself a participant of the route whose balance of the final asset FALLS during it
         # (a pool that sells the final asset in the first hop of a route that comes back to it; the router itself)
         for ops, to_kind in (([(A, B), (B, C), (C, B)], "pool0"), ([(B, C), (C, E), (E, B)], "router"),
@@ -1822,6 +1868,21 @@ def router_histories(rng, tier):
                     h.do(("router_ops", u, [(ops[0][0][1], amount)], ops, m, to), quote)
                 else:
                     h.do(("send", ops[0][0][1], u, ROUTER, amount, ("hrouter", ops, m, to)), quote)
+        # directed: a route that crosses one pair TWICE IN THE SAME DIRECTION (around a triangle and on: T -> X -> Y -> T -> X).  The
+        # router's own quote prices the second crossing against the untouched pool and over-estimates; with the quote as the
+        # minimum the route must fail, with nothing it must deliver what the hops really pay (C11-agent17: the assertion
+        # skipped on the hook entry when the up-front quote clears the minimum)
+        for T_, X_, Y_ in ((("t", 2), ("n", 0), ("t", 3)), (("n", 1), ("t", 3), ("t", 2))):
+            ops = [(T_, X_), (X_, Y_), (Y_, T_), (T_, X_)]
+            u = USER0 + 1
+            amount = max(1000, min(h.abal(T_, u), h.reserves(h.pair_for(T_, X_))[0] // 5 if h.pair_for(T_, X_) else 1000))
+            for m_kind in ("quote", "quote-1", None):
+                quote = h.query("rsim %d %s" % (amount, ops_line(ops)))
+                m = None if m_kind is None or not quote else max(0, quote[0] - (1 if m_kind == "quote-1" else 0))
+                if T_[0] == "n":
+                    h.do(("router_ops", u, [(T_[1], amount)], ops, m, None), quote)
+                else:
+                    h.do(("send", T_[1], u, ROUTER, amount, ("hrouter", ops, m, None)), quote)
         # directed: the recipient is the LP token contract of the last hop's pair (and of the first hop's pair)
         for ops in ([(A, B), (B, C)], [(C, B)]):
             for which in (-1, 0):
